@@ -28,12 +28,12 @@ Types(d) == IF d = 0 THEN Leaf
             ELSE LET T == Types(d - 1) IN T \cup Structs(T, MaxFields) \cup {a \in Arrays(T, MaxNd) : Len(a.sh) = Len(a.ord)}
 Top == LET s == SetToSeq({t \in Types(Depth) : t.k \in {"struct", "arr"}}) IN {s[i] : i \in {j \in 1..Len(s) : j % Parts = Part}}
 
-Table(ty) == {[p |-> p, ops |-> Gen(ty, p, 0, 0)] : p \in TypePaths(ty)}
+Table(ty) == UNION {AccOf(ty, p) : p \in TypePaths(ty)}
 
 Init == cty \in Top /\ cext \in DynExt /\ fin = FALSE
 Next == /\ ~fin /\ fin' = TRUE /\ UNCHANGED <<cty, cext>>
         /\ (Export /\ cext = CHOOSE e \in DynExt : TRUE) => PrintT(ToJson([t |-> cty, progs |-> SetToSeq(Table(cty))]))
 Spec == Init /\ [][Next]_vars
-GeneratorRefinesFormat == Refines(cty, Image(cty, cext), 0)
+GeneratorRefinesFormat == Refines(cty, Image(cty, cext), 0) /\ AccRefines(cty, Image(cty, cext), 0)
 ProgramsWellScoped == \A e \in Table(cty) : WellScoped(e.ops, Len(Idxs(e.p)))
 =============================================================================
